@@ -245,6 +245,21 @@ def _g_submitted(w):
     )
 
 
+@guard("has_result")
+def _g_has_result(w):
+    """User command started once at least one job result has been recorded (the phase in which nodes collect results,
+    hand over and complete)."""
+    import glob as _glob
+
+    if _glob.glob(w.rootp + "results/results_batch_*.csv"):
+        return True
+    try:
+        with open(w.rootp + "processed_results.csv") as f:
+            return len([l for l in f.read().splitlines() if l.strip()]) > 1
+    except OSError:
+        return False
+
+
 @guard("submitted_incomplete")
 def _g_submitted_incomplete(w):
     d = _cluster_state(w)
